@@ -35,7 +35,10 @@ def run_one(mod, case, tape, timeout_s):
     return out
 
 
-def make_case(mod, seed, tier):
+def make_case(mod, seed, tier, index=None, verif_seed=0):
+    """The explicit case of a run.  Modules that enumerate a fault space per instance
+    (generate_indexed) derive the instance from index // group and the fault from index % group."""
+    gi = getattr(mod, "generate_indexed", None)
+    if gi is not None and index is not None:
+        return gi(verif_seed, tier, index)
     return mod.generate(random.Random(seed ^ 0x5EED5EED), tier)
-
-
